@@ -22,7 +22,7 @@ import vlib
 KNOWN_CAP = 25          # violation files written per run for findings not listed in known_findings.json
 TIERS = {
     "quick": dict(cfg="Eyeballs_gen_quick.cfg", all=True, sample=0, tlc_timeout=600, tcp=False, threads=4),
-    "thorough": dict(cfg="Eyeballs_gen_thorough.cfg", all=False, sample=50000, tlc_timeout=2400, tcp=True, threads=8),
+    "thorough": dict(cfg="Eyeballs_gen_thorough.cfg", all=False, sample=250000, tlc_timeout=2400, tcp=True, threads=8),
 }
 MODEL_INVS = ("TypeOK", "C10Inv", "C11Inv", "Tight")
 ASSUMPTIONS = [
